@@ -21,6 +21,7 @@ G4 = {
 }
 EXTRA = {
     'irr5': (5, [(0, 1), (1, 2), (2, 3), (1, 3), (3, 4)]),
+    'paw+K1': (5, [(0, 1), (1, 2), (0, 2), (2, 3)]),
     'P5': (5, [(0, 1), (1, 2), (2, 3), (3, 4)]),
     'S4': (5, [(0, 1), (0, 2), (0, 3), (0, 4)]),
     'T5': (5, [(0, 1), (1, 2), (1, 3), (3, 4)]),
